@@ -144,28 +144,35 @@ struct JSONUtils {
                             ++offset;
 
                             if ((length - offset) > SizeT{3}) {
-                                SizeT32 code = Digit::HexStringToNumber<SizeT32>((content + offset), SizeT{4});
-                                offset += SizeT{4};
-                                offset2 = offset;
+                                // Four hex digits: the scan stops at the first unit that is not one.
+                                SizeT   hex_end = (offset + SizeT{4});
+                                SizeT32 code    = Digit::HexStringToNumber<SizeT32>(content, offset, hex_end);
 
-                                if ((code >> 10U) != 0x36U) {
-                                    Unicode::ToUTF<Char_T>(code, stream);
-                                    continue;
-                                }
-
-                                // Surrogate
-                                if ((length - offset) > SizeT{5}) {
-                                    code = (code ^ 0xD800U) << 10U;
-                                    offset += SizeT{2};
-
-                                    code += Digit::HexStringToNumber<SizeT32>((content + offset), SizeT{4}) & 0x3FFU;
-                                    code += 0x10000U;
-
-                                    Unicode::ToUTF<Char_T>(code, stream);
-
-                                    offset += SizeT{4};
+                                if (offset == hex_end) {
                                     offset2 = offset;
-                                    continue;
+
+                                    if ((code >> 10U) != 0x36U) {
+                                        Unicode::ToUTF<Char_T>(code, stream);
+                                        continue;
+                                    }
+
+                                    // Surrogate: the low half follows as another \uXXXX.
+                                    if (((length - offset) > SizeT{5}) && (content[offset] == JSONotation::BSlashChar) &&
+                                        ((content[offset + SizeT{1}] == JSONotation::U_Char) ||
+                                         (content[offset + SizeT{1}] == JSONotation::CU_Char))) {
+                                        code = (code ^ 0xD800U) << 10U;
+                                        offset += SizeT{2};
+                                        hex_end = (offset + SizeT{4});
+
+                                        code += Digit::HexStringToNumber<SizeT32>(content, offset, hex_end) & 0x3FFU;
+                                        code += 0x10000U;
+
+                                        if (offset == hex_end) {
+                                            Unicode::ToUTF<Char_T>(code, stream);
+                                            offset2 = offset;
+                                            continue;
+                                        }
+                                    }
                                 }
                             }
 
